@@ -233,8 +233,21 @@ func (w *World) checkC17() []Violation {
 			metas = append(metas, e.ArrT)
 		}
 	}
+	// ZooKeeper: an attempt stream is a run of failing queries (the back-off
+	// starts with the first failure) up to and including the next success
+	var zkRuns [][]int64
 	for _, q := range w.Env.ZK.Queries {
+		if len(zks) == 0 && !q.Err {
+			continue
+		}
 		zks = append(zks, int64(q.At))
+		if !q.Err {
+			zkRuns = append(zkRuns, zks)
+			zks = nil
+		}
+	}
+	if len(zks) > 0 {
+		zkRuns = append(zkRuns, zks)
 	}
 	dials := map[string][]int64{}
 	for _, d := range w.Env.Dials {
@@ -244,7 +257,9 @@ func (w *World) checkC17() []Violation {
 	}
 	ntasks := len(w.Plan.Tasks) + len(c.Regions)
 	if scen == "zk-errors" || scen == "meta-down" || scen == "meta-silent" {
-		vs = append(vs, w.checkStream(stream{name: "scenario " + scen + ", zookeeper queries", times: zks, free: 1})...)
+		for _, run := range zkRuns {
+			vs = append(vs, w.checkStream(stream{name: "scenario " + scen + ", zookeeper queries", times: run, free: 1})...)
+		}
 	}
 	for a, ts := range dials {
 		vs = append(vs, w.checkStream(stream{name: "scenario " + scen + ", failing dials of " + a, times: ts, free: ntasks})...)
